@@ -143,7 +143,7 @@ func genC19(t *rapid.T) C19Case {
 	nv := 4
 	// all variables of a run live in one zone of the exponent range, so that they can interact: the middle, or right at
 	// the bottom / top end (cancellations that underflow, sums and products that overflow)
-	zone := rapid.SampledFrom([]string{"mid", "mid", "mid", "mid", "mid", "mid", "low", "high"}).Draw(t, "zone")
+	zone := rapid.SampledFrom([]string{"mid", "mid", "mid", "mid", "mid", "low", "low", "high"}).Draw(t, "zone")
 	for i := 0; i < nv; i++ {
 		switch rapid.IntRange(0, 4).Draw(t, "init.kind") {
 		case 0:
